@@ -15,7 +15,7 @@ import (
 // C12 — parsing any inputrc text terminates without crashing. The parse runs
 // in the child process (a stack overflow is fatal, a loop needs a watchdog).
 
-const c12Rule = "inputrc texts = grammar-derived programs (C13 grammar) mutated by generated edits (truncate a line at any rune, delete/duplicate a token or line, splice hostile fragments: unterminated quotes, lone backslash, lone modifiers, set with 0/1/many arguments, unbalanced $if/$else/$endif, NUL/control bytes, invalid UTF-8, CR endings, lines of 64 KiB..1 MiB, $if nesting to 2000) or raw bytes; x options (halt-on-error, strict, app/term/mode/name, NewConfig/NewDefaultConfig handlers, ParseBytes/Parse/ParseFile); x include graphs served by the handler (self-inclusion, 2- and 3-cycles, chains to depth 10000, ~/ paths, missing files, read errors); oracle: the call returns nil or an error within the watchdog, child alive, no panic; non-trivial = a directive the parser acts on plus >= 1 malformed construct, or an include cycle/chain; distinct = hash of the case"
+const c12Rule = "inputrc texts = grammar-derived programs (C13 grammar) mutated by generated edits (truncate a line at any rune, delete/duplicate a token or line, splice hostile fragments: unterminated quotes, lone backslash, lone modifiers, set with 0/1/many arguments, unbalanced $if/$else/$endif, NUL/control bytes, invalid UTF-8, CR endings, lines of 64 KiB..1 MiB, $if nesting to 2000; sweeps of one unfinished construct over 34 consecutive lengths) or raw bytes; x options (halt-on-error, strict, app/term/mode/name, NewConfig/NewDefaultConfig handlers, ParseBytes/Parse/ParseFile); x include graphs served by the handler (self-inclusion, 2- and 3-cycles, chains to depth 10000, ~/ paths, missing files, read errors); oracle: the call returns nil or an error within the watchdog, child alive, no panic; non-trivial = a directive the parser acts on plus >= 1 malformed construct, or an include cycle/chain; distinct = hash of the case"
 
 type C12Case struct {
 	Spec   proto.ParseSpec `json:"spec"`
@@ -46,10 +46,28 @@ func genC12(t *rapid.T) *C12Case {
 	c.Spec.Handler = rapid.SampledFrom([]string{"config", "default"}).Draw(t, "handler")
 	c.Spec.API = rapid.SampledFrom([]string{"bytes", "bytes", "reader", "file"}).Draw(t, "api")
 
-	shape := rapid.SampledFrom([]string{"grammar", "grammar", "grammar", "grammar", "raw", "include", "include", "huge", "deepif"}).Draw(t, "shape")
+	shape := rapid.SampledFrom([]string{"grammar", "grammar", "grammar", "grammar", "raw", "include", "include", "huge", "deepif", "lengths"}).Draw(t, "shape")
 	c.Shape = shape
 
 	switch shape {
+	case "lengths":
+		// one unfinished construct (open quote, trailing backslashes, cut escape)
+		// at EVERY length in a window: a slip that only shows when the line's
+		// length meets some capacity or boundary is met by one of them
+		head := rapid.SampledFrom([]string{`set a "`, `set a '`, `set a `, `"`, `"x": "`, `"x": '`, `"\C-`, `$if "`, `$include "`, `Control-`, `"\e`, ``}).Draw(t, "lhead")
+		unit := rapid.SampledFrom([]string{"a", "a", "é", "日", " ", `\\`, `\"`}).Draw(t, "lunit")
+		tail := rapid.SampledFrom([]string{`\`, `\`, `\\\`, ``, `"`, `\"`, `\C-`, `\M-\`, `\x`}).Draw(t, "ltail")
+		from := rapid.IntRange(0, 70).Draw(t, "lfrom")
+
+		var sb strings.Builder
+
+		for n := from; n < from+34; n++ {
+			sb.WriteString(head + strings.Repeat(unit, n) + tail + "\n")
+		}
+
+		c.Spec.HaltOnErr = false
+		c.Spec.Text = []byte(sb.String())
+		c.Muts = 1
 	case "raw":
 		c.Spec.Text = rapid.SliceOfN(rapid.Byte(), 0, 300).Draw(t, "raw")
 		c.Muts = 1
